@@ -1,10 +1,164 @@
+import BoboVerif.Model.Builder
 import BoboVerif.Drivers.Util
-/- driver stub for the Builder model (to be replaced by the real line protocol). -/
+/-
+driver for M-Builder (`bobodrv builder`).  Predicates are named by natural numbers; the model is
+parametric in the predicates, so the driver instantiates `ε := Nat`, predicate `k := fun e _ => e == k`,
+and recovers the identity of a block's predicates by probing them with the ids seen so far.
+
+  new <name|~> <0|1>                                  -> ok | err builder
+  call <method> <group|~> <times|-> <loop|-> <optional|-> <ids|->
+        method ∈ next not_next followed_by not_followed_by followed_by_any not_followed_by_any;
+        `-` = argument omitted (default); loop/optional must be `-` for methods without that parameter;
+        ids = one id (single-predicate methods) / comma separated, `-` = empty list (`_any` methods)
+                                                      -> ok +<n> <block>* | err block
+  pre <id> / halt <id>                                -> ok
+  gen                                                 -> ok <name> <singleton> B[<block>*] P[ids] H[ids] | err pattern
+  rawblk <slno> <npreds>                              -> ok | err block        (BoboPatternBlock(...) directly)
+  rawpat <name|~> <slno,slno,..|->                    -> ok | err block | err pattern
+        (one-predicate blocks constructed left to right, then BoboPattern(name, blocks, [], []))
+  typed <subtype> <cast> <isinstance> <exacttype> <castok>
+                                                      -> res=<true|false|raise> handed=<none|orig|cast> orig=<same|changed>
+  <block> = group:strict loop negated optional:ids   (`~` = empty group name)
+-/
 namespace Bobo.Drv.Builder
+open Bobo.Run Bobo.Builder
 
 structure DS where
-  dummy : Unit := ()
+  st    : Option (St Nat) := none
+  maxId : Nat := 0
 
-def step (d : DS) (_line : String) : DS × String := (d, "unimplemented")
+def mkPred (k : Nat) : Pred Nat := fun e _ => some (e == k)
+
+def predId (maxId : Nat) (p : Pred Nat) : String :=
+  match (List.range (maxId + 1)).find? (fun k => p k [] == some true) with
+  | some k => toString k
+  | none => "?"
+
+def grpStr (g : String) : String := if g.isEmpty then "~" else g
+def grpParse (g : String) : String := if g = "~" then "" else g
+
+def showIds (maxId : Nat) (ps : List (Pred Nat)) : String :=
+  ",".intercalate (ps.map (predId maxId))
+
+def showBlock (maxId : Nat) (b : Block Nat) : String :=
+  grpStr b.group ++ ":" ++ boolStr b.strict ++ boolStr b.loop ++ boolStr b.negated ++ boolStr b.optional
+    ++ ":" ++ showIds maxId b.preds
+
+def showBlocks (maxId : Nat) (bs : List (Block Nat)) : String :=
+  " ".intercalate (bs.map (showBlock maxId))
+
+def parseMethod : String → Option Method
+  | "next" => some .next
+  | "not_next" => some .notNext
+  | "followed_by" => some .followedBy
+  | "not_followed_by" => some .notFollowedBy
+  | "followed_by_any" => some .followedByAny
+  | "not_followed_by_any" => some .notFollowedByAny
+  | _ => none
+
+def parseBool? : String → Option Bool
+  | "0" => some false
+  | "1" => some true
+  | _ => none
+
+/-- an optional argument: `-` = omitted (`some none`), otherwise parsed; `none` = malformed. -/
+def optArg {α} (parse : String → Option α) (s : String) : Option (Option α) :=
+  if s = "-" then some none else (parse s).map some
+
+def parseIds (s : String) : Option (List Nat) :=
+  if s = "-" then some [] else (s.splitOn ",").mapM parseNat?
+
+def doCall (d : DS) (s : St Nat) (m g t l o ids : String) : DS × String :=
+  match parseMethod m, optArg parseInt? t, optArg parseBool? l, optArg parseBool? o, parseIds ids with
+  | some meth, some times, some loop, some opt, some ks =>
+    if (loop.isSome && !meth.hasLoop) || (opt.isSome && !meth.hasOptional) then (d, "bad-op")
+    else if !meth.usesList && ks.length ≠ 1 then (d, "bad-op")
+    else
+      let c : Call Nat :=
+        { method := meth, pred := mkPred (ks.headD 0), preds := ks.map mkPred, group := if g = "-" then "" else grpParse g,
+          times := times.getD 1, loop := loop.getD false, optional := opt.getD false }
+      let mx := ks.foldl max d.maxId
+      let r := applyCall s c
+      let d' : DS := { st := some r.1, maxId := mx }
+      match r.2 with
+      | some .block => (d', "err block")
+      | some .pattern => (d', "err pattern")
+      | some .builder => (d', "err builder")
+      | none =>
+        let added := r.1.blocks.drop s.blocks.length
+        (d', "ok +" ++ toString added.length ++ (if added.isEmpty then "" else " " ++ showBlocks mx added))
+  | _, _, _, _, _ => (d, "bad-op")
+
+def doTyped (a b c e f : String) : String :=
+  match parseBool? a, parseBool? b, parseBool? c, parseBool? e, parseBool? f with
+  | some subtype, some doCast, some inst, some exact, some castOk =>
+    let t : Typed Nat :=
+      { isInst := fun x => if x = 0 then inst else true, isExact := fun x => if x = 0 then exact else true,
+        cast := fun _ => if castOk then some 1 else none, subtype := subtype, doCast := doCast }
+    let ev : Ev Nat Unit := { data := 0, rest := () }
+    let r := evalTyped t (fun (_ : Ev Nat Unit) (_ : Unit) => some true) ev ()
+    let res := match r.result with | some true => "true" | some false => "false" | none => "raise"
+    let handed := match r.handed with
+      | none => "none"
+      | some x => if x.data = 0 then "orig" else "cast"
+    "res=" ++ res ++ " handed=" ++ handed ++ " orig=" ++ (if r.orig.data = 0 then "same" else "changed")
+  | _, _, _, _, _ => "bad-op"
+
+def parseFlags (s : String) : Option (Bool × Bool × Bool × Bool) :=
+  match s.toList.map (fun c => if c = '1' then some true else if c = '0' then some false else none) with
+  | [some a, some b, some c, some e] => some (a, b, c, e)
+  | _ => none
+
+def rawBlock (fl : Bool × Bool × Bool × Bool) (npreds : Nat) : Block Nat :=
+  { preds := (List.range npreds).map mkPred, group := "", strict := fl.1, loop := fl.2.1,
+    negated := fl.2.2.1, optional := fl.2.2.2 }
+
+def doRawPat (name fls : String) : String :=
+  let toks := if fls = "-" then [] else fls.splitOn ","
+  match toks.mapM parseFlags with
+  | none => "bad-op"
+  | some fs =>
+    let bs := fs.map (fun f => rawBlock f 1)
+    if !(bs.all Block.legal) then "err block"
+    else if ctorOk ({ name := grpParse name, blocks := bs, pre := [], halt := [], singleton := false } : Pattern Nat)
+      then "ok" else "err pattern"
+
+def step (d : DS) (line : String) : DS × String :=
+  match words line, d.st with
+  | ["new", name, sg], _ =>
+    match parseBool? sg with
+    | some b =>
+      match (init (grpParse name) b : Except Err (St Nat)) with
+      | .ok s => ({ st := some s, maxId := 0 }, "ok")
+      | .error _ => ({ st := none, maxId := 0 }, "err builder")
+    | none => (d, "bad-op")
+  | ["call", m, g, t, l, o, ids], some s => doCall d s m g t l o ids
+  | ["pre", k], some s =>
+    match parseNat? k with
+    | some k =>
+      let r := applyCall s { method := .precondition, pred := mkPred k }
+      ({ st := some r.1, maxId := max d.maxId k }, "ok")
+    | none => (d, "bad-op")
+  | ["halt", k], some s =>
+    match parseNat? k with
+    | some k =>
+      let r := applyCall s { method := .haltcondition, pred := mkPred k }
+      ({ st := some r.1, maxId := max d.maxId k }, "ok")
+    | none => (d, "bad-op")
+  | ["gen"], some s =>
+    match generate s with
+    | .ok p =>
+      (d, "ok " ++ p.name ++ " " ++ boolStr p.singleton ++ " B[" ++ showBlocks d.maxId p.blocks ++ "] P["
+            ++ showIds d.maxId p.pre ++ "] H[" ++ showIds d.maxId p.halt ++ "]")
+    | .error .pattern => (d, "err pattern")
+    | .error .block => (d, "err block")
+    | .error .builder => (d, "err builder")
+  | ["typed", a, b, c, e, f], _ => (d, doTyped a b c e f)
+  | ["rawblk", fl, n], _ =>
+    match parseFlags fl, parseNat? n with
+    | some f, some k => (d, if (rawBlock f k).legal then "ok" else "err block")
+    | _, _ => (d, "bad-op")
+  | ["rawpat", name, fls], _ => (d, doRawPat name fls)
+  | _, _ => (d, "bad-op")
 
 end Bobo.Drv.Builder
